@@ -174,9 +174,12 @@ pub struct ExecOpts {
     pub post_growth: bool,
     /// verify the quarantine allocator's poison after the run (C03)
     pub quarantine: bool,
+    /// after the run, count the key comparisons of a lookup of every stored key and of a few absent
+    /// ones in every crowded bin (C06)
+    pub cmp_bound: bool,
 }
 impl ExecOpts {
-    pub const DEFAULT: ExecOpts = ExecOpts { collect_events: false, hold_refs: true, retire_reachability: false, quiescent_check: true, ledger_check: false, hb: false, post_growth: false, quarantine: false };
+    pub const DEFAULT: ExecOpts = ExecOpts { collect_events: false, hold_refs: true, retire_reachability: false, quiescent_check: true, ledger_check: false, hb: false, post_growth: false, quarantine: false, cmp_bound: false };
 }
 impl Default for ExecOpts {
     fn default() -> Self {
@@ -783,6 +786,30 @@ pub fn exec(pool: &Pool, prog: &Prog, spec: SchedSpec<'_>, opts: &ExecOpts, map_
         }
         let d = unsafe { m.verif_dump() };
         after = inspect::shape(&d);
+        if opts.cmp_bound && oracle_fail.is_none() && after.table_len >= 64 {
+            let g = m.guard();
+            let mask = after.table_len as u64 - 1;
+            let mut tags: Vec<u32> = fin.keys().copied().collect();
+            // absent keys of the hot bin too
+            tags.extend((0..16u16).map(hot_tag));
+            tags.sort();
+            tags.dedup();
+            for t in tags {
+                let b = (prog.cfg.hmode.hash_tag(t) & mask) as usize;
+                let (is_tree, n) = after.bins.get(&b).copied().unwrap_or((false, 0));
+                if n < 8 || !is_tree {
+                    continue;
+                }
+                let c0 = cmps();
+                let _ = m.get(&K::probe(t), &g);
+                let c = cmps() - c0;
+                let bound = (4.0 * ((n + 1) as f64).log2()).ceil() as u64 + 2;
+                if c > bound {
+                    oracle_fail = Some(("C06", format!("after the concurrent part, get({}) in the tree bin {} of {} colliding keys (table {}) cost {} key comparisons, bound {}", t, b, n, after.table_len, c, bound)));
+                    break;
+                }
+            }
+        }
         if opts.quiescent_check && oracle_fail.is_none() {
             if let Err(e) = quiescent_agreement(m, prog, &fin) {
                 oracle_fail = Some(("C05", e));
@@ -1277,7 +1304,10 @@ pub const CROWD_SIZES: [u16; 20] = [1, 2, 3, 4, 7, 8, 9, 15, 16, 17, 31, 32, 33,
 fn crowd_prog_strategy() -> BoxedStrategy<Prog> {
     let hm = prop_oneof![3 => Just(HMode::Identity), 1 => Just(HMode::SameBin), 1 => Just(HMode::Const0)];
     let n = prop_oneof![6 => 9u16..15, 1 => Just(3u16), 1 => Just(7u16)];
-    (hm, n, proptest::sample::select(CROWD_SIZES.to_vec()), prop_oneof![Just(GuardMode::PerOp), Just(GuardMode::PerThread), Just(GuardMode::Pin)], 0u8..3).prop_flat_map(|(hmode, n, size, gmode, kind)| {
+    (hm, n, proptest::sample::select(CROWD_SIZES.to_vec()), prop_oneof![Just(GuardMode::PerOp), Just(GuardMode::PerThread), Just(GuardMode::Pin)], 0u8..3, any::<bool>()).prop_flat_map(|(hmode, n, size, gmode, kind, big)| {
+        // under the all-colliding hashers every key shares the bin: trees of 39-44 nodes, in which a
+        // linear walk costs more comparisons than the logarithmic bound allows
+        let n = if big && hmode != HMode::Identity && n >= 9 { n + 30 } else { n };
         let hot = n + 2;
         let read = {
             let k = key_strategy(hot);
